@@ -70,6 +70,53 @@ def dynamic(ctx):
     return out
 
 
+def pair(ctx, prop):
+    """PubSubPair.tla: two complete real nodes (bus, transport controller + in-process transport, pubsub controller with floodsub, real link):
+    link / subscribe / unsubscribe / publish histories through the BuildChannelSubscription directive; PubSubPairMon.tla judges the deliveries"""
+    import random
+    r = ctx.tlc("PubSubPair", cfg="MC_PubSubPair.cfg", timeout=600, count=False)
+    hs = sorted({m.group(1).encode().decode("unicode_escape") for m in re.finditer(r'<<"HIST", "(.*)">>', r.out)})
+    if not hs:
+        raise vlib.Infra("PubSubPair printed no history")
+    hs = [json.loads(h) for h in hs]
+    random.Random(ctx.seed * 29 + 11).shuffle(hs)
+    # always: a publish that must cross the link, with the link established before / after the subscriptions
+    def crosses(h):
+        return any(s["a"] == "pub" and len(s["exp"]) == 2 for s in h)
+    must = [h for h in hs if crosses(h)]
+    rest = [h for h in hs if not crosses(h)]
+    n = 120 if ctx.tier == "quick" else len(hs)
+    behs = (must[: n * 2 // 3] + rest)[:n]
+    bpath = os.path.join(ctx.tmp, "pair_behaviours.json")
+    json.dump(behs, open(bpath, "w"))
+    tpath = os.path.join(ctx.tmp, "pair_trace.ndjson")
+    ctx.go_run("twonode", ["-mode", "pubsub", "-cases", bpath, "-out", tpath], timeout=3000)
+    rows = vlib.read_ndjson(tpath)
+    if len([x for x in rows if x["e"] == "reset"]) != len(behs):
+        raise vlib.Infra("twonode pubsub: traces missing")
+    ctx.traces += len(behs)
+    ctx.evaluations += len([x for x in rows if x["e"] == "q"])
+    ctx.cov["two_node_pubsub_histories"] = len(behs)
+    ctx.cov["two_node_cross_link_publishes"] = sum(1 for h in behs for s in h if s["a"] == "pub" and len(s["exp"]) == 2)
+    for h in behs:
+        if crosses(h):
+            ctx.nontrivial.add("pair:" + json.dumps(h))
+    ok, r = ctx.tlc_validate("PubSubPairMon", "PubSubPairMon.cfg", tpath, env={"PROP": prop}, dfs=False, timeout=1800)
+    if not ok:
+        if r.violated == "NoViolation":
+            tail = r.out[r.out.rfind("/\\ bad ="):]
+            bads = re.findall(r'<<\s*"(C\d+)",\s*"([^"]*)",\s*(-?\d+)\s*>>', tail, re.S)
+            seen = set()
+            for b in [b for b in bads if b[0] == prop]:
+                if b[1] in seen:
+                    continue
+                seen.add(b[1])
+                h = behs[int(b[2])] if 0 <= int(b[2]) < len(behs) else None
+                ctx.violation("%s:pair:%s" % (prop, b[1][:70]), "%s (two-node history %s)" % (b[1], [(s["a"], s["s"]) for s in h] if h else "?"), {"history": h})
+        else:
+            raise vlib.Infra("PubSubPairMon did not consume the trace\n" + r.out[-2000:])
+
+
 def run(ctx):
     prop = ctx.prop
     ctx.assumptions = ["links between nodes are harness-mediated in-memory streams (wire tap, injection); the Execute loop's 100 ms sweep tick is waited out before every checkpoint",
@@ -120,6 +167,8 @@ def run(ctx):
                 ctx.violation("%s:%s" % (prop, b[1]), "%s (node %s, behaviour %d)" % (b[1], b[2], bi), {"behaviour": behs[bi] if 0 <= bi < len(behs) else None})
         else:
             raise vlib.Infra("FloodSubMon did not consume the trace\n" + r.out[-2000:])
+    # 2b. end to end on two complete nodes
+    pair(ctx, prop)
     # 3. property-specific extras
     if prop in ("C28", "C29"):
         spath = os.path.join(ctx.tmp, "fs_stress.ndjson")
